@@ -35,6 +35,11 @@ func (t *Transaction) GetNewIntents() map[string]*TransactionIntent {
 	return t.newIntents
 }
 
+// GetOldIntent returns the content the intent with the given name had before the transaction, nil if unknown.
+func (t *Transaction) GetOldIntent(name string) *TransactionIntent {
+	return t.oldIntents[name]
+}
+
 func (t *Transaction) GetOldRunning() *TransactionIntent {
 	return t.oldRunning
 }
